@@ -1114,7 +1114,10 @@ sexp sexp_apply (sexp ctx, sexp proc, sexp args) {
     if (sexp_context_interruptp(ctx)) {
       fuel = sexp_context_refuel(ctx);
       sexp_context_interruptp(ctx) = 0;
-      _ARG1 = sexp_global(ctx, SEXP_G_INTERRUPT_ERROR);
+      /* we're between instructions, so the top of the stack is live
+         data (at procedure entry the saved fp of the new frame) -
+         push the error instead of overwriting it */
+      _PUSH(sexp_global(ctx, SEXP_G_INTERRUPT_ERROR));
       goto call_error_handler;
     }
     tmp1 = sexp_global(ctx, SEXP_G_THREADS_SCHEDULER);
